@@ -21,7 +21,7 @@ LEVEL_TEXT = ("Machine-checked Lean proofs, for every Time/Timeout/MinTime >= 1 
               "client and server keepalive loops and handlePing: a healthy connection (a frame at least every Time) is never "
               "closed; a silent one is closed no later than max(lastRead+Time, applicable-since)+Timeout whenever no frame is read "
               "while the client loop is dormant (always so for the server and with PermitWithoutStream) and at most min(Time,Timeout) "
-              "later otherwise (the literal bound is refuted on a concrete timeline = finding F19); spaced pings never strike; the "
+              "later otherwise (the literal bound is refuted on a concrete timeline = finding F20); spaced pings never strike; the "
               "third unforgiven too-early ping sends GOAWAY; a server write forgives. The automata are diffed, under virtual time "
               "at exact boundaries, against the real http2Client/http2Server on every run.")
 LEVEL_NOTE = ("PARTIAL. Readings: (1) 'applicable' = stream open or PermitWithoutStream; the bound is checked on the virtual clock "
